@@ -581,6 +581,19 @@ impl GrafeoDB {
         Ok(())
     }
 
+    /// Marks the records logged by one auto-committed API call as committed.
+    ///
+    /// Recovery only replays records that are followed by a commit marker, so without
+    /// this nothing issued through the direct API survives a crash, synced or not.
+    #[cfg(feature = "wal")]
+    fn commit_wal(&self) {
+        if let Err(e) = self.log_wal(&WalRecord::TxCommit {
+            tx_id: grafeo_common::types::TxId::SYSTEM,
+        }) {
+            tracing::warn!("Failed to log TxCommit to WAL: {}", e);
+        }
+    }
+
     /// Returns the number of nodes in the database.
     #[must_use]
     pub fn node_count(&self) -> usize {
@@ -638,6 +651,8 @@ impl GrafeoDB {
         }) {
             tracing::warn!("Failed to log CreateNode to WAL: {}", e);
         }
+        #[cfg(feature = "wal")]
+        self.commit_wal();
 
         id
     }
@@ -688,6 +703,7 @@ impl GrafeoDB {
                     tracing::warn!("Failed to log SetNodeProperty to WAL: {}", e);
                 }
             }
+            self.commit_wal();
         }
 
         id
@@ -709,8 +725,11 @@ impl GrafeoDB {
         let result = self.store.delete_node(id);
 
         #[cfg(feature = "wal")]
-        if result && let Err(e) = self.log_wal(&WalRecord::DeleteNode { id }) {
-            tracing::warn!("Failed to log DeleteNode to WAL: {}", e);
+        if result {
+            if let Err(e) = self.log_wal(&WalRecord::DeleteNode { id }) {
+                tracing::warn!("Failed to log DeleteNode to WAL: {}", e);
+            }
+            self.commit_wal();
         }
 
         result
@@ -734,6 +753,8 @@ impl GrafeoDB {
         }) {
             tracing::warn!("Failed to log SetNodeProperty to WAL: {}", e);
         }
+        #[cfg(feature = "wal")]
+        self.commit_wal();
 
         self.store.set_node_property(id, key, value);
     }
@@ -767,6 +788,7 @@ impl GrafeoDB {
             }) {
                 tracing::warn!("Failed to log AddNodeLabel to WAL: {}", e);
             }
+            self.commit_wal();
         }
 
         result
@@ -801,6 +823,7 @@ impl GrafeoDB {
             }) {
                 tracing::warn!("Failed to log RemoveNodeLabel to WAL: {}", e);
             }
+            self.commit_wal();
         }
 
         result
@@ -866,6 +889,8 @@ impl GrafeoDB {
         }) {
             tracing::warn!("Failed to log CreateEdge to WAL: {}", e);
         }
+        #[cfg(feature = "wal")]
+        self.commit_wal();
 
         id
     }
@@ -923,6 +948,7 @@ impl GrafeoDB {
                     tracing::warn!("Failed to log SetEdgeProperty to WAL: {}", e);
                 }
             }
+            self.commit_wal();
         }
 
         id
@@ -944,8 +970,11 @@ impl GrafeoDB {
         let result = self.store.delete_edge(id);
 
         #[cfg(feature = "wal")]
-        if result && let Err(e) = self.log_wal(&WalRecord::DeleteEdge { id }) {
-            tracing::warn!("Failed to log DeleteEdge to WAL: {}", e);
+        if result {
+            if let Err(e) = self.log_wal(&WalRecord::DeleteEdge { id }) {
+                tracing::warn!("Failed to log DeleteEdge to WAL: {}", e);
+            }
+            self.commit_wal();
         }
 
         result
@@ -969,6 +998,8 @@ impl GrafeoDB {
         }) {
             tracing::warn!("Failed to log SetEdgeProperty to WAL: {}", e);
         }
+        #[cfg(feature = "wal")]
+        self.commit_wal();
         self.store.set_edge_property(id, key, value);
     }
 
@@ -1210,6 +1241,7 @@ impl GrafeoDB {
                     }) {
                         tracing::warn!("Failed to log SetNodeProperty to WAL: {}", e);
                     }
+                    self.commit_wal();
                 }
 
                 id
